@@ -11,7 +11,7 @@ import (
 )
 
 var repo = flag.String("repo", "/repo", "repository root")
-var allExtractors = []string{"wire", "classify"}
+var allExtractors = []string{"wire", "classify", "sites"}
 
 var outDir = flag.String("out", "/verif/lean/TSSVerif/Gen", "output directory for generated Lean files")
 
@@ -31,6 +31,8 @@ func main() {
 			name, body = "Wire", genWire()
 		case "classify":
 			name, body = "Classify", genClassify()
+		case "sites":
+			name, body = "Sites", genSites()
 		default:
 			fmt.Fprintf(os.Stderr, "unknown extractor %q\n", w)
 			os.Exit(2)
